@@ -142,6 +142,10 @@ extern "C" int harness_main()
 		if (k == R_CLOSE || !keep_alive) { exp_closed = true; break; }
 	}
 
+	// stop() may be called while this connection is open (after it was accepted, before its requests arrive):
+	// the connection is still served and closed according to the same rules
+	bool const early_stop = vp_choose(2) == 1;
+	asio::high_resolution_timer stop_timer(tios), start_timer(tios);
 	csock.open(tcp::v4(), ec);
 	csock.async_connect(tcp::endpoint(SA, 8080), [&](error_code const& e)
 	{
@@ -149,7 +153,9 @@ extern "C" int harness_main()
 		if (e) return;
 		csock.non_blocking(true);
 		read_more(c);
-		write_next(c);
+		if (!early_stop) { write_next(c); return; }
+		stop_timer.expires_after(duration(20000000)); stop_timer.async_wait([&](error_code const&) { srv->stop(); });
+		start_timer.expires_after(duration(40000000)); start_timer.async_wait([&](error_code const&) { write_next(c); });
 	});
 	s.run();
 	vp_assert(c.connected == 0, 1);
@@ -176,6 +182,21 @@ extern "C" int harness_main()
 	csock.close(ec);
 	s.run();
 
+	if (early_stop)
+	{
+		// stopped: nobody listens any more, the port is free
+		tcp::socket e1(cios); int r = -1;
+		e1.open(tcp::v4(), ec);
+		e1.async_connect(tcp::endpoint(SA, 8080), [&](error_code const& e) { r = ecv(e); });
+		s.run();
+		vp_assert(r == E_REFUSED, 22);
+		e1.close(ec);
+		delete srv; s.run();
+		vp_reach(1); vp_reach(5);
+		if (nexp == NREQ) vp_reach(2);
+		if (c.cuts.size() == 2) vp_reach(3);
+		return 0;
+	}
 	// ---- the next client is accepted (unless the first connection is stalled: the server handles one at a time)
 	bool const stalled = !exp_closed && nexp < NREQ && kinds[nexp] == R_STALL;
 	if (stalled)
